@@ -25,7 +25,7 @@ class Q(AV):
         self.weighted = weighted
 
     def __repr__(self):
-        return {"inv": "Inv", "unk": "Unknown"}.get(self.kind, f"{self.kind.title()}({float(self.q):+g})")
+        return {"inv": "Inv", "unk": "Unknown", "top": "NotModelled"}.get(self.kind, f"{self.kind.title()}({float(self.q):+g})")
 
     def __eq__(self, o):
         return isinstance(o, Q) and (self.kind, self.q) == (o.kind, o.q)
@@ -49,7 +49,9 @@ class ChargeDomain(TensorDomain):
         return Q()
 
     def top(self):
-        return Q("unk")
+        # an operation this domain has no transfer function for: "do not know" (verdict unknown), to be told apart from
+        # "unk" = provably not of a covariant form (sum of differently charged terms ...), which is a definite non-invariance
+        return Q("top")
 
     def t_binop(self, op, a, b, raw=(None, None)):
         w = a.weighted or b.weighted
@@ -104,6 +106,8 @@ class ChargeDomain(TensorDomain):
 
     def t_unary(self, fn, x, args=(), kw=None):
         w = x.weighted and fn != "filled"
+        if fn in ("ones_like", "zeros_like", "full_like", "empty_like"):
+            return Q()  # whatever the values of the argument
         if x.kind == "unk":
             return Q("unk", weighted=w)
         if fn == "exp":
@@ -171,6 +175,8 @@ class ChargeDomain(TensorDomain):
                     return qb
                 if cb == 0 and qa.kind in ("mul", "inv"):
                     return qa
+        if name == "torch.outer" and len(args) == 2:  # bilinear, like a product
+            return self.t_binop("matmul", self.lift(args[0]), self.lift(args[1]))
         if name in ("torch.trapezoid",):
             return Q("unk")
         return super().ext_call(name, args, kw)
@@ -191,6 +197,8 @@ class ChargeDomain(TensorDomain):
     def t_attr(self, x, name):
         if name in ("shape", "ndim", "dtype", "device", "requires_grad"):
             return None
+        if x.kind == "top":
+            return Q("top")
         if name == "weight":
             return Q() if x.weighted else None
         return Q(x.kind, x.q)
@@ -223,6 +231,27 @@ class ChargeDomain(TensorDomain):
         if q is not None:
             return Q("add", q, node.kind == "DataVariable")
         return Q(weighted=node.kind == "DataVariable")
+
+
+def _has_top(v, depth=0):
+    if isinstance(v, Q):
+        return v.kind == "top"
+    if isinstance(v, (list, tuple)) and depth < 3:
+        return any(_has_top(x, depth + 1) for x in v)
+    return False  # (mappings are not searched: the state mapping handed to update rules holds every node, evaluated or not)
+
+
+def _top_strict(fn):
+    def wrapped(self, *a, **k):
+        if _has_top(a) or _has_top(list(k.values())):
+            return Q("top")
+        return fn(self, *a, **k)
+    wrapped.__name__ = fn.__name__
+    return wrapped
+
+
+for _m in ("t_binop", "t_unary", "t_reduce", "t_where", "ext_call", "t_cat", "t_matmul", "t_wt", "t_join", "t_logprob", "t_named"):
+    setattr(ChargeDomain, _m, _top_strict(getattr(ChargeDomain, _m)))
 
 
 def charges_of_graph(ctx, g, shifts: Dict[str, int]):
